@@ -33,8 +33,8 @@ class FixedFormat_encode(Contract):
     returns = 'int'
     properties = ['C16']
     # the step from "within [neg_maxval, pos_maxval] by alignment" (callee contract) to the integer range of the
-    # word does not go through unbounded in reasonable time (> 200 s per path): bounded stand-in, widths/exponents <= 8
-    options = {'split_heavy': True, 'bounded': 8, 'bounded_try_ms': 2000, 'bounded_ms': 30000}
+    # word does not go through unbounded in reasonable time (> 200 s per path): bounded stand-in, widths/exponents <= 6
+    options = {'split_heavy': True, 'bounded': 6, 'bounded_try_ms': 1500, 'bounded_ms': 30000}
 
     def post(self, x, result):
         return {
@@ -90,8 +90,8 @@ class SMFixedFormat_encode(Contract):
     params = {'self': 'SMFixedFormat', 'x': 'Float'}
     returns = 'int'
     properties = ['C16']
-    # bounded stand-in (widths/exponents <= 8), same reason as FixedFormat_encode
-    options = {'split_heavy': True, 'bounded': 8, 'bounded_try_ms': 2000, 'bounded_ms': 30000}
+    # bounded stand-in (widths/exponents <= 6), same reason as FixedFormat_encode
+    options = {'split_heavy': True, 'bounded': 6, 'bounded_try_ms': 1500, 'bounded_ms': 30000}
 
     def post(self, x, result):
         return {
